@@ -15,8 +15,22 @@ structure Grant where
   mode : Mode
   deriving Repr, DecidableEq
 
+/-- a blocking request on an MCS lock, for the arrival-order monitor (C11) -/
+structure FReq where
+  tid : Nat
+  lk : Nat
+  mode : Mode
+  arrival : Option Nat := none
+  granted : Bool := false
+  deriving Repr
+
 structure MonSt where
   grants : List Grant := []
+  reqs : List FReq := []
+  arrivals : Nat := 0
+  liveNodes : Int := 0
+  maxLiveNodes : Int := 0
+  nFifoChecks : Nat := 0
   /-- first violation found, if any -/
   bad : Option String := none
   /-- counters for the evidence -/
@@ -74,6 +88,53 @@ def stepTok (s : MonSt) (tok : String) : MonSt :=
       else flag s s!"guard: grant {gid} released twice or never granted"
     | none => flag s s!"malformed token {tok}"
   else s
+
+/-- `B<k>` of a `lock` instruction: a new blocking request -/
+def fifoBegin (s : MonSt) (tid lk : Nat) (m : Mode) : MonSt :=
+  { s with reqs := s.reqs ++ [{ tid := tid, lk := lk, mode := m }] }
+
+/-- an atomic event of thread `tid`: the first successful write to the lock word by its pending request
+    is the request's arrival -/
+def fifoEvent (s : MonSt) (tid : Nat) (op loc ok : String) : MonSt :=
+  if (op == "xchg" || (op == "cas" && ok == "1")) && loc.startsWith "L" then
+    match (loc.drop 1).toString.toNat? with
+    | some lk =>
+      let hit := s.reqs.any fun r => r.tid == tid && r.lk == lk && r.arrival.isNone && !r.granted
+      if hit then
+        let n := s.arrivals
+        { s with arrivals := n + 1,
+                 reqs := s.reqs.map fun r =>
+                   if r.tid == tid && r.lk == lk && r.arrival.isNone && !r.granted then { r with arrival := some n } else r }
+      else s
+    | none => s
+  else s
+
+/-- `G+` by thread `tid`: its pending request is granted; every conflicting request that arrived earlier on
+    the same lock must already have been granted -/
+def fifoGrant (s : MonSt) (tid : Nat) (tok : String) : MonSt :=
+  match s.reqs.find? (fun r => r.tid == tid && !r.granted) with
+  | some me =>
+    let s := { s with reqs := s.reqs.map fun r => if r.tid == tid && !r.granted then { r with granted := true } else r }
+    match me.arrival with
+    | some n =>
+      let overtaken := s.reqs.filter fun r =>
+        r.lk == me.lk && !r.granted && conflict r.mode me.mode &&
+        (match r.arrival with | some k => k < n | none => false)
+      let s := { s with nFifoChecks := s.nFifoChecks + 1 }
+      match overtaken.head? with
+      | some o => flag s s!"fifo: request of thread {tid} ({me.mode.toStr}, arrival {n}) granted ({tok}) before the conflicting request of thread {o.tid} ({o.mode.toStr}) that arrived earlier"
+      | none => s
+    | none => s
+  | none => s
+
+/-- node allocation / free tokens -/
+def nodeTok (s : MonSt) (tok : String) : MonSt :=
+  if tok.startsWith "NA" then
+    let l := s.liveNodes + 1
+    { s with liveNodes := l, maxLiveNodes := max s.maxLiveNodes l }
+  else
+    let l := s.liveNodes - 1
+    if l < 0 then flag s "nodes: more queue nodes freed than allocated" else { s with liveNodes := l }
 
 /-- tokens of the form `R<k>=<res>`: instruction-specific checks that need the instruction -/
 def checkBool (s : MonSt) (res : String) : MonSt :=
